@@ -33,6 +33,7 @@ volatile uint64_t g_sanitizer_reports = 0;
 volatile unsigned g_bool_sink = 0;
 volatile uint64_t g_alloc_bytes = 0, g_alloc_max = 0, g_alloc_calls = 0, g_alloc_refused = 0;
 volatile bool g_meter = false;
+long g_live_blocks = 0;
 
 bool under_asan() {
 #ifdef VF_ASAN
@@ -191,11 +192,16 @@ static void* metered_alloc(size_t n) {
   }
   void* p = malloc(n ? n : 1);
   if (!p) throw std::bad_alloc();
+  __atomic_add_fetch(&vf::g_live_blocks, 1, __ATOMIC_RELAXED);
   return p;
+}
+static inline void metered_free(void* p) noexcept {
+  if (p) __atomic_sub_fetch(&vf::g_live_blocks, 1, __ATOMIC_RELAXED);
+  free(p);
 }
 void* operator new(size_t n) { return metered_alloc(n); }
 void* operator new[](size_t n) { return metered_alloc(n); }
-void operator delete(void* p) noexcept { free(p); }
-void operator delete[](void* p) noexcept { free(p); }
-void operator delete(void* p, size_t) noexcept { free(p); }
-void operator delete[](void* p, size_t) noexcept { free(p); }
+void operator delete(void* p) noexcept { metered_free(p); }
+void operator delete[](void* p) noexcept { metered_free(p); }
+void operator delete(void* p, size_t) noexcept { metered_free(p); }
+void operator delete[](void* p, size_t) noexcept { metered_free(p); }
